@@ -126,11 +126,11 @@ class Script:
     def close_all(self, rng):
         for i in sorted(self.http):
             if self.http[i] == "parked":
-                self.op(rng.choice(["hr", "hr", "ha", "hf", "hx"]), i)
+                self.op(rng.choice(["hr", "hr", "hr", "ha", "ha", "hx", "hx", "hf"]), i)
             else:
-                self.op(rng.choice(["ha", "hf"]), i)
+                self.op(rng.choice(["ha", "ha", "ha", "hf"]), i)
         for i in sorted(self.ws):
-            self.op(rng.choice(["wl", "wl", "wa", "wf", "wg", "wx"]), i)
+            self.op(rng.choice(["wl", "wl", "wl", "wa", "wa", "wg", "wx", "wf"]), i)
 
     def final(self, rng):
         """everything closed; now `max` fresh connections must be served and one more refused"""
@@ -166,11 +166,11 @@ def apply_abstract(s, a, rng):
         c = [i for i in s.http if s.http[i] == "parked"]
         s.op("hr", min(c) if c else (s.dead[0] if s.dead else 0))
     elif a == "ha-old":
-        s.op(rng.choice(["ha", "hf"]), min(s.http) if s.http else (s.dead[0] if s.dead else 0))
+        s.op(rng.choice(["ha", "ha", "ha", "hf"]), min(s.http) if s.http else (s.dead[0] if s.dead else 0))
     elif a == "wl-old":
         s.op(rng.choice(["wl", "wg"]), min(s.ws) if s.ws else (s.dead[0] if s.dead else 0))
     elif a == "wa-new":
-        s.op(rng.choice(["wa", "wf", "wx"]), max(s.ws) if s.ws else (s.dead[-1] if s.dead else 0))
+        s.op(rng.choice(["wa", "wa", "wx", "wx", "wf"]), max(s.ws) if s.ws else (s.dead[-1] if s.dead else 0))
     elif a == "wc-new":
         s.op("wc", max(s.ws) if s.ws else (s.dead[-1] if s.dead else 0))
 
